@@ -192,6 +192,39 @@ var scenarios = []scenario{
 		s.opGetattr(b)
 		s.opLookup(s.root(), "g")
 	}},
+	{"a directory reusing the number of a removed directory of another parent", func(s *seqRun) {
+		// the freed inode stays in the inode cache as an object, with the name cache that was built
+		// for it: whoever gets the number next must not see the old "." / ".." / entries
+		s.pokeInodeAlloc(50)
+		p := s.mk("mkdir", s.root(), "p") // number 51: above the directory that will be reused
+		s.pokeInodeAlloc(20)
+		a := s.mk("mkdir", p, "a") // number 21
+		s.mk("create", a, "x")
+		s.opLookup(a, "..")
+		s.opLookup(a, "x")
+		s.opReaddir(a, 0, 1000) // the name cache of a exists now
+		s.opRemove("remove", a, "x")
+		s.opRemove("rmdir", p, "a")
+		s.pokeInodeAlloc(inumOf(a) - 1)
+		b := s.mk("mkdir", s.root(), "b") // takes a's number, in ANOTHER parent
+		s.opLookup(b, "..")
+		s.opLookup(b, ".")
+		s.opLookup(b, "x")
+		s.opReaddirplus(b, 0, 1000, 10000)
+		s.mk("create", b, "y")
+		s.opReaddir(b, 0, 1000)
+		s.opLookup(s.root(), "p")
+		// ... and the other way round: the old parent numbered below
+		q := s.mk("mkdir", s.root(), "q")
+		c := s.mk("mkdir", q, "c")
+		s.opLookup(c, "..")
+		s.opReaddir(c, 0, 1000)
+		s.opRemove("rmdir", q, "c")
+		s.pokeInodeAlloc(inumOf(c) - 1)
+		e := s.mk("mkdir", b, "e") // c's number, now under b
+		s.opLookup(e, "..")
+		s.opReaddirplus(e, 0, 1000, 10000)
+	}},
 	{"size on directories, removal of directories", func(s *seqRun) {
 		d := s.mk("mkdir", s.root(), "d")
 		s.mk("create", d, "f")
